@@ -623,13 +623,17 @@ Qed.
 Definition is_codec (i : input) : bool :=
   match i with ISeal _ _ _ _ _ _ | IOpen _ _ _ => false | _ => true end.
 
-Lemma spec_model_codec i : is_codec i = true -> spec i (model i) = true.
+(* the extension cases (round 11) are proved in C12_Ext_spec_proofs.v, which
+   closes this lemma into spec_model_codec *)
+Lemma spec_model_codec_core i :
+  (forall x, xspec x (xmodel x) = true) -> is_codec i = true -> spec i (model i) = true.
 Proof.
-  destruct i; cbn [is_codec]; intros H; try discriminate.
+  intros HX. destruct i; cbn [is_codec]; intros H; try discriminate.
   - apply spec_model_round.
   - apply spec_model_dec.
   - apply spec_model_decK.
   - reflexivity.
+  - apply HX.
 Qed.
 
 (* ---------- delegation chains: parties may repeat ---------- *)
